@@ -19,10 +19,37 @@ def programs(tier, seed):
         pass
 
 
+class TextProg:
+    def __init__(self, pid, text, names): self.pid, self.text, self.names = pid, text, names
+    def c(self): return self.text
+    def gnames(self): return self.names
+
+
+def g_addr_imm():
+    """a register loaded with a byte of an ADDRESS (#<tab, #>tab) and compared with a number: the optimiser knows the operand text,
+    not its value. The table is linked first to learn the two bytes, then compared with exactly those (and neighbouring) values."""
+    import itertools
+    from equiv import Session
+    head = 'const unsigned char pad[] = {%s};\nconst unsigned char tab[4] = {1, 2, 3, 4};\nunsigned char vc, vd;\n'
+    out = []
+    for padn in (3, 16):
+        probe = common.compile_one(head % ', '.join(['7'] * padn) + 'void main() { X = tab; vc = pad[1]; }\n', ['-O0'])
+        if probe.status != 'ok': continue
+        addr = Session().variant(probe).layout.sym.get('tab')
+        if addr is None: continue
+        lo, hi = addr & 0xff, addr >> 8
+        for (rn, ld), (bn, byte, val) in itertools.product((('X', 'X = %s;'), ('Y', 'Y = %s;'), ('vd', 'vd = %s;')), (('lo', 'tab', lo), ('hi', 'tab >> 8', hi))):
+            for k in sorted({val, (val + 1) & 0xff, 16}):
+                for op in ('!=', '=='):
+                    body = (ld % byte) + ' if (%s %s %d) vc = 1; else vc = 2; vd = pad[1];' % (rn, op, k)
+                    out.append(TextProg('addr-imm/pad%d/%s/%s/%s%d' % (padn, rn, bn, op, k), head % ', '.join(['7'] * padn) + 'void main() { %s }\n' % body, ['vc', 'vd']))
+    return out
+
+
 def run(tier):
     rep = common.Report('C02', tier, 'translation_validation')
     common.build_driver()
-    progs = list(programs(tier, rep.seed))
+    progs = list(programs(tier, rep.seed)) + g_addr_imm()
     variants = [('O0', ['-O0'], None), ('O1', ['-O1'], None), ('O2', ['-O2'], None), ('O3', ['-O3'], None)]
     stats, samples, results = runner.relational(rep, progs, variants, 'O0')
     rep.cov = dict(programs=stats['accepted'], disagreements_checked=stats['disagreements_checked'], samples=samples,
